@@ -60,7 +60,10 @@ class FragHarness(Harness):
     def cuts_of(self, res, frags):
         out = []
         for sl in res.l:
-            out.append([sl.a, sl.b, sl.l is frags])
+            if sl.a == sl.b:
+                out.append([0, 0, True])     # an empty slice has no position / identity of its own
+            else:
+                out.append([sl.a, sl.b, sl.l is frags])
         return out
 
     def native_cuts(self, resp):
@@ -71,7 +74,7 @@ class FragHarness(Harness):
         for e in t[1:]:
             a, ln = e.split(':')
             a = int(a)
-            out.append([a, a + int(ln), a >= 0] if int(ln) > 0 or a >= 0 else [0, 0, True])
+            out.append([a, a + int(ln), a >= 0] if int(ln) > 0 else [0, 0, True])
         return out
 
     def native(self, nat, cfg, inp):
